@@ -212,10 +212,6 @@ func (r *resolver) Resolve(ctx context.Context, vk resolve.VersionKey) (*resolve
 						}
 					}
 				} else {
-					c, err := semver.NPM.ParseConstraint(idep.Version)
-					if err != nil {
-						return nil, fmt.Errorf("ParseConstraint %s: %w", idep.Version, err)
-					}
 					var cvk resolve.Version
 					if child.ver.VersionKey != (resolve.VersionKey{}) {
 						cvk = child.ver
@@ -224,8 +220,20 @@ func (r *resolver) Resolve(ctx context.Context, vk resolve.VersionKey) (*resolve
 					} else {
 						return nil, errors.New("unknown child version")
 					}
-					if c.Match(cvk.Version) {
-						resolved = child
+					if c, err := semver.NPM.ParseConstraint(idep.Version); err == nil {
+						if c.Match(cvk.Version) {
+							resolved = child
+						}
+					} else {
+						// Not a range (a dist-tag such as "latest"): the copy
+						// resolves the requirement if it is one of the versions
+						// the requirement selects.
+						for _, dver := range dvers {
+							if cvk.VersionKey == dver.VersionKey {
+								resolved = child
+								break
+							}
+						}
 					}
 					break
 				}
